@@ -669,6 +669,26 @@ def filler_only(img, out, base_out, m, mut):
     return True
 
 
+def golden_positions(c, img):
+    """the byte positions of an image whose treatment by the decoder is recorded in spec/reenc_ignored_golden.json: the object header
+    behind the base header and the first fields of the body, the first and last byte of every fixed-size array, the last two bytes"""
+    osz = min(int.from_bytes(img[8:12], 'little'), len(img))
+    pos = set(range(16, min(80, osz)))
+    pos |= set(p_ for p_ in (osz - 1, osz - 2) if p_ >= 16)
+    lay = c.get('layout')
+    if lay:
+        off = 4
+        for it in lay['items']:
+            if it[0] == 'scalar':
+                off += it[2]
+            elif it[0] == 'fixed':
+                pos |= set(p_ for p_ in (off, off + it[2] - 1) if 16 <= p_ < osz)
+                off += it[2]
+            else:
+                break
+    return sorted(pos)
+
+
 def check_C02(res):
     pipe = Pipe(res)
     tr = pipe.regenerate()
@@ -692,6 +712,11 @@ def check_C02(res):
     npos = 12 if res.tier == 'quick' else 10 ** 9
     vals = [0x00, 0x01, 0x7f, 0x80, 0xff] if res.tier == 'quick' else [0x00, 0x01, 0x7f, 0x80, 0xff, 0x55, 0xaa]
     first_of_class = set()
+    try:
+        gold = json.load(open(os.path.join(VERIF, 'spec', 'reenc_ignored_golden.json')))
+    except Exception:
+        gold = {}
+    gold_reqs = {}      # class -> (image name, {position: index into reqs})
     for name, typ, img in images:
         cn = fac.get(str(typ))
         if cn is None or cn not in cls:
@@ -699,6 +724,16 @@ def check_C02(res):
             continue
         reqs.append('reenc %s %s' % (cn, img.hex()))
         meta.append((name, cn, img, None))
+        if cn not in gold_reqs and (cn not in gold or gold[cn]['image'] == name):
+            # the recorded positions of the recorded image of this class: is a byte the decoder used to represent ignored now?
+            gp = {}
+            for ppos in (gold[cn]['positions'] if cn in gold else golden_positions(cls[cn], img)):
+                if ppos < len(img):
+                    d = bytearray(img); d[ppos] = 0x00 if img[ppos] == 0xff else 0xff
+                    gp[ppos] = len(reqs)
+                    reqs.append('reenc %s %s' % (cn, bytes(d).hex()))
+                    meta.append((name, cn, bytes(d), ('golden', ppos)))
+            gold_reqs[cn] = (name, gp, len(reqs) - len(gp) - 1)
         osz = int.from_bytes(img[8:12], 'little')
         positions = list(range(16, min(osz, len(img))))
         if len(positions) > npos:
@@ -766,6 +801,8 @@ def check_C02(res):
             if dis <= 20:
                 res.violation('model-vs-implementation', 'reenc correspondence differs for %s' % cn, {'request': r[:3000], 'model': a[:1500], 'impl': b[:1500], 'image': name, 'mutation': mut})
             continue
+        if mut is not None and mut[0] == 'golden':
+            continue
         m = mask_offsets(cls[cn])
         pads = any(fac.get(k) == cn for k in fac) and cls[cn].get('layout') and any(it[0] == 'pad' for it in cls[cn]['layout']['items'])
         v = reenc_verdict(img, b, m, pads)
@@ -819,6 +856,28 @@ def check_C02(res):
                 stats['derived_partly_filler'] += 1
             else:
                 fails.setdefault((cn, 'derived-not-reproduced'), (name, '%s after overwrite %s' % (v, mut), r))
+    # bytes the decoder ignores (union filler, reserved gaps): the set recorded for the repaired tree may shrink, not grow - a byte
+    # that was represented in the decoded object and is ignored now is a byte of a Vector-produced object that no longer survives
+    ignored_now = {}
+    for cn, (name, gp, bi) in gold_reqs.items():
+        bd = parse_kv(imp[bi]).get('dec')
+        if bd is None:
+            continue
+        ign = []
+        for ppos, ri in gp.items():
+            dd = parse_kv(imp[ri])
+            if dd.get('halt') == 'none' and dd.get('short') == 'false' and dd.get('dec') == bd:
+                ign.append(ppos)
+        ignored_now[cn] = {'image': name, 'positions': sorted(gp), 'ignored': sorted(ign)}
+        if cn in gold:
+            new_ign = sorted(set(ign) - set(gold[cn]['ignored']))
+            if new_ign:
+                ppos = new_ign[0]
+                fails.setdefault((cn, 'represented-byte-now-ignored'), (name, 'the decoder no longer represents the byte at offset %d of the image (it did on the recorded tree; %d such bytes: %s): an image with another value there is not reproduced' % (ppos, len(new_ign), new_ign[:8]), reqs[gp[ppos]]))
+    if os.environ.get('VERIF_WRITE_GOLDEN') == 'C02':
+        json.dump(ignored_now, open(os.path.join(VERIF, 'spec', 'reenc_ignored_golden.json'), 'w'), indent=0, sort_keys=True)
+    res.corr['ignored_byte_classes_checked'] = len([c for c in ignored_now if c in gold])
+    res.oblige('S:ignored-byte-golden-present', bool(gold), 'spec/reenc_ignored_golden.json missing')
     res.corr['disagreements'] = dis
     res.oblige('D:reenc-correspondence', dis == 0, '%d disagreements' % dis)
     res.corr['distinct'] = len(set(reqs))
@@ -2494,6 +2553,18 @@ def check_sched(res, prop):
                     break
             if not (r and 'outcome=ended' in r[0] and ' n=%d ' % len(sizes) in r[0]):
                 fails.setdefault(('File', 'deadlock-read-session-' + name), ({'kind': 'read', 'reqs': {'native': 'readfile of: ' + rq}}, 'native', (r[0] if r else 'no answer')[:100]))
+        # the container size changed in the middle of a write session (smaller and larger), with the workers asleep when it happens
+        small = ' '.join(';; AppText %d=%s' % (ti, '63' * 40) for _ in range(100))
+        many = ' '.join(';; AppText %d=%s' % (ti, '64' * 40) for _ in range(6000))
+        for name, first, second in (('container-size-reduced-in-session', 131072, 16384), ('container-size-raised-in-session', 4096, 262144)):
+            rq = 'writefile level=1 cs=%d rp=1 %s ;; @z ;; @cs=%d %s' % (first, small, second, many)
+            for attempt in range(2):
+                w, rc, err = lib.session(fexe, [rq], env=env, timeout=120)
+                res.corr['requests'] += 1
+                if w and w[0].startswith('writefile out='):
+                    break
+            if not (w and w[0].startswith('writefile out=')):
+                fails.setdefault(('File', 'deadlock-write-session-' + name), ({'kind': 'write', 'reqs': {'native': rq}}, 'native', (w[0] if w else 'no answer')[:100]))
         # early close of a read session on a file far larger than the read-ahead: the inflater sleeps on the full stream buffer,
         # the parser on the full object queue (more than 10 objects unread) when close() / the destructor arrives
         rq = 'writefile level=0 cs=131072 rp=1 ' + ' '.join(';; AppText %d=%s' % (ti, '62' * 20000) for _ in range(48))
